@@ -56,6 +56,16 @@ CHECKS = {
          'Held (apart from the recorded optimizer findings, which are matched by signature) on N generated programs x 4 AST forms x 3 variable assignments x 6 compilations: same value / error class / status as the unoptimised code, and no level accepted a program another rejected. A safe generator profile keeps the recorded defect shapes out, so that any disagreement there is new.',
          'Trusts the VM as the common executor and the AST builder (astbuild.go). Side effects other than the returned value/status are not generated (no WebSocket opcodes yet). Recorded: algebraic identities dropping errors, flow-insensitive propagation, status dropped from rewritten returns (pointer-form ASTs only).',
          'DESIGN.md §3 C03'),
+ 'C04': ('exploration',
+         'containment monitor at the HTTP boundary (CLI wiring, both modes, one module per case) + library-level engine-panic monitor: enumerated operator x shape / builtin x arity x shape / statement-position / response-builder x status matrices, extremes, non-terminating programs under a watchdog with goroutine dumps, hostile requests, ill-typed random programs; canary route after every case',
+         'Held on the completely enumerated matrices (about 12k cases) plus N random ill-typed programs, in both modes: no dropped connection, no hang, no process death, generic 5xx bodies, no Go error text / stack / path in any body, no 2xx for an evaluation that fails at library level, no Go panic escaping either engine, and the canary route answered after every case.',
+         'Trusts the leak patterns and the generic-body predicate in c04.go. Bounded work is a 25 s watchdog (normal requests take milliseconds) corroborated by two goroutine dumps; finite-but-enormous loops are not generated. Since the dispatcher now recovers panics, engine panics are observed at library level.',
+         'DESIGN.md §3 C04'),
+ 'C11': ('exploration',
+         'admission-bound checker over recorded timed histories on a virtual clock (pairwise bound N*(1+T/window)+1, conforming-client, isolation-replay and identity oracles) at the CLI (`+ ratelimit`) and library middleware; concurrent floods; race detector',
+         'Held (apart from the recorded window-conversion finding for sec/hour at the CLI) on N histories: no client was admitted more than the bound in any interval, clients built to stay within the rate were never rejected, each client was admitted exactly as when alone, forged forwarding headers did not open new buckets while proxies are untrusted, 429s never ran the body, and 640-way concurrent floods admitted at most N.',
+         'Trusts the sed-generated clock overlay and the pairwise bound (with a slack of one token for integer refill rounding). Ticker-driven eviction (real clock, 60 s) is not reached.',
+         'DESIGN.md §3 C11'),
 }
 NA = {}
 for p in props:
